@@ -79,20 +79,27 @@ func c06tBuildCases(x *mc.X) []c06tCase {
 		name  string
 		sizes []int // one plain file, or several files in a manifest
 	}
+	// A pyramid carries the root and intermediate chunks of every file plus the
+	// single chunk of one-chunk files. GetChunkHashes first loads the reference as
+	// a manifest, which reads the *whole* blob: a plain multi-chunk file or (in
+	// the scaled geometry, where manifest nodes exceed one chunk) a manifest is
+	// not loadable from a pyramid even when it is honest. Hence: scaled geometry
+	// = single-chunk plain files; real geometry = these plus manifests.
 	specs := []spec{
 		{"file-1", []int{1}},
 		{"file-C-1", []int{C - 1}},
 		{"file-C", []int{C}},
-		{"file-C+1", []int{C + 1}},
-		{fmt.Sprintf("file-%dC", B), []int{B * C}},
-		{fmt.Sprintf("file-%dC+1", B), []int{B*C + 1}},
 	}
-	if B <= 8 {
-		specs = append(specs,
-			spec{fmt.Sprintf("file-%dC", B*B), []int{B * B * C}},
-			spec{fmt.Sprintf("file-%dC+1", B*B), []int{B*B*C + 1}},
-			spec{"manifest-16B-and-C+1", []int{16, C + 1}},
-		)
+	if B > 8 {
+		specs = []spec{
+			{"manifest(16B,C+1)", []int{16, C + 1}},
+		}
+		if mc.Thorough() {
+			specs = append(specs,
+				spec{"file-C", []int{C}},
+				spec{"manifest(C,2C+5)", []int{C, 2*C + 5}},
+			)
+		}
 	}
 	var out []c06tCase
 	for si, sp := range specs {
@@ -225,10 +232,13 @@ func c06tEdits(c c06tCase) []c06tEdit {
 
 func TestVerifC06Traversal(t *testing.T) {
 	geom := fmt.Sprintf("branches=%d", boson.Branches)
-	nEdits := mc.Pick(1, 2)
+	nEdits := 1
+	if boson.Branches <= 8 {
+		nEdits = 2
+	}
 	mc.Run(t, mc.Config{ID: "C06", Name: "C06-traversal-" + geom, MaxDev: -1, Params: map[string]interface{}{
 		"geometry": geom,
-		"cases":    "plain files of 1, C-1, C, C+1, B*C, B*C+1, B^2*C, B^2*C+1 bytes and a manifest with a 16 byte and a C+1 byte file (B = branches, C = chunk size); honest pyramid from GetPyramid",
+		"cases":    "scaled geometry: plain files of 1, C-1, C bytes; real geometry: manifest{16 B, C+1}, thorough tier also a plain file of C bytes and manifest{C, 2C+5}; honest pyramid from GetPyramid (C = chunk size)",
 		"edits":    "none; extra unrelated entry (valid / flipped / non-hex key / short key); request a root that is absent / an unrelated present entry; per pyramid entry: flip@{0,7,8,39,40,last}, truncate to {0,7,8,len-32,len-1}, append 00 / 01 / a reference to an extra entry, zero-extend to capacity / capacity+1, extend to capacity+32 non-zero, replaced by another valid chunk, missing, upper-case key only, upper-case duplicate carrying an oversize copy, swapped with the next entry",
 		"edits_per_execution": nEdits,
 	}}, func(x *mc.X) {
